@@ -220,6 +220,55 @@ def _run_deductive(c, case_id, case, cfg, out):
                 rep["observed"] = "clause held natively (engine/CPython disagreement)"
         m["replay"] = rep
     out["obligations"] = list(merged.values())
+    # fallback ladder (DESIGN.md 2.8): code the engine cannot interpret is never reported as violating
+    # and never left undecided if the same contract can be evaluated natively: run-time contract
+    # evaluation on boundary-biased random inputs, reported as a bounded stand-in (not proved)
+    hard = [u for u in out["unsupported"] if u and "deadline" not in u and "budget" not in u]
+    if hard and c.replayable:
+        from .engine import Harness, _reset_globals
+        from .sym import PathInfeasible
+
+        rng_fb = random.Random(f"fb/{_W['seed']}/{c.name}/{case_id}")
+        n_fb = 40 if _W["tier"] == "quick" else 400
+        agg = {}
+        ran = 0
+        for _i in range(n_fb):
+            Hn = Harness("replay", rng=rng_fb)
+            Hn.tier = _W["tier"]
+            Hn.keep_all = False
+            _reset_globals()
+            try:
+                c.body(Hn, case)
+            except PathInfeasible:
+                continue
+            except BaseException as e:  # noqa
+                a = agg.setdefault("no_unexpected_exception", [0, 0, None])
+                a[1] += 1
+                a[2] = a[2] or {"exception": f"{type(e).__name__}: {e}", "inputs": dict(Hn.leaf_log), "choices": dict(Hn.named_choices)}
+            finally:
+                _reset_globals()
+            ran += 1
+            for name, (n_ok, n_fail, wit) in Hn.agg.items():
+                a = agg.setdefault(name, [0, 0, None])
+                a[0] += n_ok
+                a[1] += n_fail
+                if n_fail and a[2] is None:
+                    a[2] = {"inputs": dict(Hn.leaf_log), "choices": dict(Hn.named_choices), "witness": wit}
+        out["fallback"] = {"reason": hard[0][:300], "native_runs": ran}
+        out["unsupported"] = [u for u in out["unsupported"] if u not in hard]
+        have = {m["check"] for m in out["obligations"]}
+        for name, (n_ok, n_fail, wit) in agg.items():
+            if name in have and not n_fail:
+                continue
+            ob = {"check": name, "status": "discharged" if n_fail == 0 else "violated", "backend": "native-fallback",
+                  "evals": n_ok + n_fail, "fails": n_fail, "t": 0.0, "paths": 1, "fallback": True}
+            if n_fail:
+                ob["witness"] = wit
+                ob["model"] = (wit or {}).get("inputs", {})
+                ob["choices"] = (wit or {}).get("choices", {})
+                ob["replay"] = {"confirmed": True, "observed": f"{n_fail} of {n_ok + n_fail} native evaluations false", "witness": wit}
+                out["obligations"] = [m for m in out["obligations"] if m["check"] != name]
+            out["obligations"].append(ob)
     # engine-vs-CPython differential on concrete inputs
     n_diff = cfg.get("selfcheck_samples", 2) if c.replayable else 0
     sc = {"samples": 0, "mismatches": []}
@@ -397,7 +446,7 @@ def report(prop, tier, seed, contracts, results, args, wall):
             for mm in r["selfcheck"]["mismatches"]:
                 defects.append(f"{r['contract']}/{r['case']}: engine disagrees with CPython on {mm}")
         if r["kind"] == "deductive" and not r["canary"]:
-            if r["path_status"].get("ok", 0) + r["path_status"].get("exception", 0) == 0 and not r["unsupported"]:
+            if r["path_status"].get("ok", 0) + r["path_status"].get("exception", 0) == 0 and not r["unsupported"] and not r.get("fallback"):
                 defects.append(f"{r['contract']}/{r['case']}: vacuous (no feasible complete path)")
         for u in r["unsupported"]:
             undecided.append({"obligation": f"{prop}/{r['contract']}/{r['case']}", "why": f"unsupported: {u}"})
@@ -418,6 +467,17 @@ def report(prop, tier, seed, contracts, results, args, wall):
                 continue
             npo = ob.get("path_obligations", 1)
             ob_names.append(ob_id)
+            if ob.get("fallback"):
+                bounded_parts.append({"obligation": ob_id, "bound": "FALLBACK: the engine could not interpret the code (" + (r.get("fallback") or {}).get("reason", "?")
+                                      + f"); native contract evaluation on {ob.get('evals', 0)} boundary-biased random inputs",
+                                      "evaluations": ob.get("evals", 0), "status": ob["status"]})
+                if ob["status"] == "violated":
+                    rep = ob.get("replay") or {}
+                    k = match_known(known, prop, ob_id, ob)
+                    entry = {"obligation": ob_id, "model": ob.get("model"), "choices": ob.get("choices"), "replay": rep, "exception": None,
+                             "witness": ob.get("witness"), "contract": r["contract"], "case": r["case"], "check": ob["check"], "kind": "bounded"}
+                    (known_hits.append((k, entry)) if k else violations.append(entry))
+                continue
             if r["kind"] != "deductive":
                 if r["kind"] == "bounded":
                     bounded_parts.append({"obligation": ob_id, "bound": c.bound, "evaluations": ob.get("evals", 0),
